@@ -5,7 +5,8 @@ import json, os, subprocess, sys, re, glob
 def sh(cmd): return subprocess.run(cmd, shell=True, capture_output=True, text=True)
 assert sh('git -C /repo status --porcelain').stdout.strip() == '', '/repo not clean'
 props = [p['id'] for p in json.load(open('/verif/props.json'))]
-names = sys.argv[1:]
+fast = '--fast' in sys.argv
+names = [a for a in sys.argv[1:] if a != '--fast']
 if names == ['--all']:
     names = sorted(os.path.basename(os.path.dirname(m)) for m in glob.glob('/verif/seeded/*/meta.json'))
 for name in names:
@@ -26,6 +27,9 @@ for name in names:
         elif dd.startswith('chainimport'): rel |= {'C14'}
         elif dd.startswith('query'): rel |= {'C12'}
         elif dd == '': rel |= {'C01','C02','C03','C05','C06','C09','C10','C13','C19'}
+    if fast and meta.get('detected_by'):
+        # a change that was reported before: re-run the property it was seeded for and the checks that reported it
+        rel = {meta.get('seeded_for', meta.get('property'))} | set(meta['detected_by'])
     sh(f'git -C /repo apply {d}/patch.diff')
     detected, broken, obligations = [], [], {}
     try:
